@@ -65,6 +65,17 @@ def family(ctx, fid):
     return None
 
 
+# recursive cycles of the logos-generated lexer, keyed by the token kinds they produce.  Depth = characters of one token (<= 64 KiB by the
+# property's bound); whether that many frames fit the 8 MiB main stack depends on the frame size, which MIR does not give - so each
+# cycle is listed with what was observed at the bound, and a cycle for any other token kind is reported.
+LEXER_CYCLES = {
+    frozenset({"DirectAddress"}): ("ok", "depth = components of one direct address; at the 64 KiB bound (32,500 components, `%IX1.1.1...`) the debug build does not overflow"),
+    frozenset({"FixedPoint", "FloatingPoint"}): ("ok", "depth = digits of one number; a 64 KB digit string does not overflow the 8 MiB main stack in the debug build"),
+    frozenset({"Digits", "FixedPoint", "FloatingPoint"}): ("ok", "depth = digits of one number; a 64 KB `1_1_1..` literal does not overflow the 8 MiB main stack in the debug build"),
+    frozenset({"Comment"}): ("known", "a 40 KB comment made of `* ` pairs (or 20,000 times `(*`) aborts check/echo/tokenize with a stack overflow in the debug build; 60 KB of plain text in a comment is fine"),
+}
+
+
 def run(ctx, rep, rid="R-C04-recursion"):
     r = rep.rule(rid, "every recursion in product code descends the syntax tree: each cycle of the resolved call graph consists of derive-generated "
                       "traversals (visit_/fold_/recurse_*), peg-generated parse functions, derived Debug/Clone/PartialEq impls, or logos lexer states (bounded by token length); anything else is reported",
@@ -86,10 +97,26 @@ def run(ctx, rep, rid="R-C04-recursion"):
         other = sorted(norm(x) for x in fams.get(None, []))
         label = sorted(norm(x) for x in comp)[0]
         if not other and "logos" in fams:
-            r.justified("cycle of %d: %s .." % (len(comp), label.split(">::")[-1]),
-                        "logos-generated lexer states call each other once per input character (tail calls that a debug build does not eliminate): depth <= length of one "
-                        "token <= input size, which the property bounds by 64 KiB (observed: a 100 KB comment is fine, a 300 KB comment overflows the 8 MB main stack in the debug build)",
-                        "parser/src/token.rs")
+            # lexer states that call each other: one stack frame (or several) per character of one token in a build without tail-call
+            # elimination.  Which tokens a cycle belongs to is read off the token kinds that are produced downstream of it.
+            seen_l, st_l, kinds = set(comp), list(comp), set()
+            while st_l:
+                f_ = st_l.pop()
+                for _, _, s_ in ctx.prog.bodies[f_].all_stmts():
+                    if s_[0] == "=" and s_[2][0] == "agg" and isinstance(s_[2][1], dict) and s_[2][1].get("adt", "").endswith("token::TokenType"):
+                        kinds.add(s_[2][1]["variant"])
+                for t_ in succ.get(f_, ()):
+                    if t_ not in seen_l and family(ctx, t_) == "logos":
+                        seen_l.add(t_)
+                        st_l.append(t_)
+            inst = "lexer cycle|%s" % ",".join(sorted(kinds))
+            why = LEXER_CYCLES.get(frozenset(kinds))
+            if why and why[0] == "ok":
+                r.justified(inst, why[1], "parser/src/token.rs")
+            else:
+                r.finding(inst + "|stack per character", "parser/src/token.rs", "the generated lexer states for %s call each other once per character of the token (%d mutually recursive state functions); "
+                          "a build without tail-call elimination needs one stack frame per character, so a long token of this kind overflows the stack%s" % (
+                              "/".join(sorted(kinds)), len(comp), (": " + why[1]) if why else " (not measured: a new cycle)"))
         elif not other:
             r.ok("cycle of %d: %s .." % (len(comp), label), None, ", ".join("%s x%d" % (k, len(v)) for k, v in sorted(fams.items(), key=str)))
         else:
